@@ -117,6 +117,9 @@ LEAVES = {
     "shifts_p": (_pos(3, 0.2, 1.0), [0.4, 0.6, 0.8]),
     "rrh_p": (lambda rng: [round(rng.uniform(0.1, 0.9), 6), round(rng.uniform(0.1, 0.9), 6), round(rng.uniform(2.5, 5.0), 6)],
               [0.5, 0.3, 3.5]),
+    # a Weibull site model WITHOUT an invariant category (its proportions are the constant 1/K)
+    "wshape2": (_pos(1, 0.4, 2.0), [1.2]),
+    "mu_w2": (_pos(1, 0.5, 2.0), [0.9]),
     # further model classes
     "theta_e": (_pos(1, 1.0, 10.0), [5.0]),
     "growth": (_real(1, -0.5, 0.5), [0.1]),
@@ -200,6 +203,7 @@ def spec(values: dict, with_mg94_like: bool = True):
         {"id": "site_w", "type": "WeibullSiteModel", "categories": 3, "shape": "wshape", "invariant": "pinv",
          "mu": "mu"},
         {"id": "site_i", "type": "InvariantSiteModel", "invariant": "pinv2"},
+        {"id": "site_w2", "type": "WeibullSiteModel", "categories": 4, "shape": "wshape2", "mu": "mu_w2"},
         {"id": "site_c", "type": "ConstantSiteModel"},
         # ---------------- substitution models
         {"id": "hky", "type": "HKY", "kappa": "kappa", "frequencies": "hky_freqs"},
@@ -263,6 +267,8 @@ def spec(values: dict, with_mg94_like: bool = True):
         # BayesianBridge, CTMCScale; a joint INSIDE a joint (container of models holding a container of models)
         {"id": "jc", "type": "JC69"},
         {"id": "like_jc", "type": "TreeLikelihoodModel", "tree_model": "utree", "site_model": "site_c",
+         "substitution_model": "jc", "site_pattern": "sp"},
+        {"id": "like_w2", "type": "TreeLikelihoodModel", "tree_model": "utree", "site_model": "site_w2",
          "substitution_model": "jc", "site_pattern": "sp"},
         {"id": "coal_e", "type": "ExponentialCoalescentModel", "theta": "theta_e", "growth": "growth", "tree_model": "ttree2"},
         {"id": "mvn", "type": "MultivariateNormal", "x": "mvn_x",
